@@ -7,6 +7,7 @@ from arrays import NAMECODES, cq_dim, cq_dimset, fl_dim, mk_universe, obs_dims, 
 from common import cq_bool, cq_list, cq_nat, cq_opt, cq_Z, letter_code
 
 ID = "C14"
+THOROUGH_ROUNDS = 2      # rounds of generate() in the thorough tier (new random draws each round)
 COQ_MODULE = "Corr.DimC"
 SHARD = 200
 EXHAUSTIVE = True
